@@ -79,7 +79,8 @@ def proof_status(pid, tier='quick'):
             res['errors'].append('registered theorem %s not found in %s' % (t, mod))
     return res
 
-AUDIT_TEMPLATE = '''import MODULE
+AUDIT_TEMPLATE = '''import Lean
+import MODULE
 open Lean Elab Command in
 run_cmd do
   let env ← getEnv
@@ -150,7 +151,7 @@ def main(argv):
     foot = pipeline.closure(gen_defs, roots) | pipeline.closure(model_defs, model_roots)
     broken = sorted(n for n in foot if st['bridge'].get(n, '').startswith('BROKEN') or n in st['removed'])
     bridged = sorted(n for n in foot if st['bridge'].get(n) == 'bridged')
-    untranslated = [u for u in st.get('untranslated', []) if any(re.search(rx, u['name']) for rx in spec['roots'])
+    untranslated = [u for u in st.get('untranslated', []) if (u['name'] in foot or any(re.search(rx, u['name']) for rx in spec['roots']))
                     and u['name'] not in registry.EXPECTED_UNTRANSLATED]
     cfg_dep = sorted(n for n in foot if n in st.get('cfg_diff', []))
     hand_changed = []
